@@ -41,6 +41,15 @@ pub fn ladder_source(construct: &str, depth: usize) -> String {
         "fstring-nest-var" => format!("{}x{}", "f'{".repeat(d), "}'".repeat(d)),
         "match-nest" => format!("{}1{}", "match x { case _: ".repeat(d), " }".repeat(d)),
         "match-scrutinee-nest" => format!("{}x{}", "match ".repeat(d), " { case _: 1 }".repeat(d)),
+        // two kinds of nesting per level
+        "ternary-call" => format!("{}1{}", "x ? dyn(".repeat(d), ") : 1".repeat(d)),
+        "ternary-list" => format!("{}1{}", "x ? [".repeat(d), "] : 1".repeat(d)),
+        "index-nest" => format!("{}0{}", "l[".repeat(d), "]".repeat(d)),
+        "map-in-list" => format!("{}1{}", "[{'k': ".repeat(d), "}]".repeat(d)),
+        "macro-ternary" => format!("{}1{}", "[1].map(e, x ? ".repeat(d), " : 1)".repeat(d)),
+        "fstring-ternary" => format!("{}1{}", "f'{x ? ".repeat(d), " : 1}'".repeat(d)),
+        "match-arm-paren" => format!("{}1{}", "match x { case _: (".repeat(d), ") }".repeat(d)),
+        "else-chain-paren" => format!("{}1{}", "x ? 1 : (".repeat(d), ")".repeat(d)),
         "list-wide" => format!("[{}]", vec!["1"; d].join(",")),
         "list-wide-var" => format!("[{}]", vec!["x"; d].join(",")),
         "map-wide" => format!("{{{}}}", (0..d).map(|i| format!("'k{}': x", i)).collect::<Vec<_>>().join(",")),
@@ -54,7 +63,8 @@ pub fn ladder_source(construct: &str, depth: usize) -> String {
 pub const LADDER_CONSTRUCTS: &[&str] = &[
     "paren", "list", "map", "not", "neg", "not-var", "ternary-right", "ternary-paren", "add-chain", "add-chain-var",
     "or-chain", "and-chain", "rel-chain", "field-chain", "index-chain", "call-nest", "dyn-nest-var", "method-chain",
-    "macro-nest", "macro-nest-var", "has-nest", "coalesce-nest", "fstring-nest", "fstring-nest-var", "match-nest", "match-scrutinee-nest", "list-wide",
+    "macro-nest", "macro-nest-var", "has-nest", "coalesce-nest", "fstring-nest", "fstring-nest-var", "match-nest", "match-scrutinee-nest",
+    "ternary-call", "ternary-list", "index-nest", "map-in-list", "macro-ternary", "fstring-ternary", "match-arm-paren", "else-chain-paren", "list-wide",
     "list-wide-var", "map-wide", "args-wide", "string-long", "ident-long",
 ];
 
